@@ -430,6 +430,7 @@ impl FromStr for Targets {
     type Err = ParseError;
     fn from_str(s: &str) -> Result<Self, Self::Err> {
         s.split(',')
+            .filter(|s| !s.is_empty())
             .map(StaticDirective::from_str)
             .collect::<Result<_, _>>()
             .map(Self)
